@@ -262,9 +262,7 @@ func main() {
 	defer os.RemoveAll(tmp)
 	sf := filepath.Join(tmp, "main.go")
 	os.WriteFile(sf, []byte(src), 0o644)
-	if d := os.Getenv("GOCV_KEEP_STANDIN"); d != "" {
-		os.WriteFile(filepath.Join(d, "c13_main.go"), []byte(src), 0o644) // maintenance only
-	}
+	keepStandin("c13_1", src)
 	virt := filepath.Join(opts.Repo, "internal", "zz_verif_c13bounded", "main.go")
 	ov, _ := json.Marshal(map[string]any{"Replace": map[string]string{virt: sf}})
 	ovf := filepath.Join(tmp, "ov.json")
